@@ -108,3 +108,5 @@ Proof.
     destruct (wf_afc_cases l W) as [[_ A]|[(_ & _ & E)|(_ & A & _)]]; try congruence.
     subst p. rewrite ser_pkt_split, E, app_nil_r. reflexivity.
 Qed.
+Lemma wf_is_pkt_hdr l : Iso.wf_lpkt l -> is_pkt (Iso.ser_pkt l) /\ Iso.hdr_of (Iso.ser_pkt l) = Iso.lh l.
+Proof. intros W. split; [apply wf_is_pkt | apply wf_hdr_of]; exact W. Qed.
